@@ -67,15 +67,15 @@ BUILTINS_LC = {k.lower(): v for k, v in BUILTINS.items()}
 # (comps) ; the declarations below give every last component a type so that built-ins resolve
 FIELD_POOL = [
     [("f1", None)], [("f2", None)], [("f3", None)], [("m1", None)], [("m2", None)],
-    [("fa", "1")], [("fa", "2")], [("fa", "3")], [("fa", "i")], [("fa", "j")],
-    [("fb", "1,2")], [("fb", "i,j")], [("fb", "2,1")],
+    [("fa", "1")], [("fa", "2")], [("fa", "3")], [("fa", "i")], [("fa", "j")], [("fa", "idx")], [("fa", "jdx")],
+    [("fb", "1,2")], [("fb", "i,j")], [("fb", "2,1")], [("fb", "idx,jdx")],
     [("obj", None), ("f", None)], [("obj", None), ("v", "1")], [("obj", None), ("v", "i")],
     [("obj", None), ("g", "2"), ("f", None)], [("obj", None), ("g", "i"), ("f", None)],
     [("obj", None), ("g", "1"), ("h", "2")], [("objs", "1"), ("f", None)], [("objs", "2"), ("f", None)],
     [("obj_f", None)], [("fa_1", None)], [("obj_g_f", None)], [("f1_1", None)],
     [("cell", None)], [("df", None)], [("nlayers", None)], [("map_w1", None)], [("f1_data", None)],
 ]
-REAL_POOL = [[("a", None)], [("b", None)], [("sc", "1")], [("sc", "2")], [("sc", "i")],
+REAL_POOL = [[("a", None)], [("b", None)], [("sc", "1")], [("sc", "2")], [("sc", "i")], [("sc", "idx")],
              [("obj", None), ("s", None)], [("obj", None), ("t", "1")], [("obj_s", None)], [("sc_1", None)]]
 REAL_LITS = ["1.0_r_def", "0.5_r_def", "2.0_r_def", "-1.0_r_def", "3.0e0_r_def"]
 INT_POOL = [[("istp", None)], [("n", None)], [("ns", "2")], [("obj", None), ("n", None)], [("ns", "i")]]
@@ -108,7 +108,7 @@ VAR_DECLS = """\
   type(field_type) :: cell, df, nlayers, map_w1, f1_data
   type(some_type) :: obj, objs(2)
   real(r_def) :: a, b, sc(2), obj_s, sc_1
-  integer(i_def) :: istp, n, ns(3), ext, exts(2), obj_ext, exts_1, dir, dirs(2), obj_dir, i, j, marker
+  integer(i_def) :: istp, n, ns(3), ext, exts(2), obj_ext, exts_1, dir, dirs(2), obj_dir, i, j, idx, jdx, marker
   type(quadrature_xyoz_type) :: qr, qr2, qrs(2), obj_qr
 """
 
@@ -167,7 +167,7 @@ def mklit(rng, kind, text):
 
 # "themed" invokes concentrate kernels of one family and arguments that differ only in their index
 THEME_POOLS = {"qr": [[("qrs", "1")], [("qrs", "2")], [("qr", None)], [("obj", None), ("qr", None)]],
-               "extent": [[("exts", "1")], [("exts", "2")], [("exts", "i")], [("ext", None)], [("obj", None), ("exts", "2")]],
+               "extent": [[("exts", "1")], [("exts", "2")], [("exts", "i")], [("exts", "idx")], [("ext", None)], [("obj", None), ("exts", "2")]],
                "direction": [[("dirs", "1")], [("dirs", "2")], [("dir", None)]]}
 THEME_KERNELS = {"qr": ["testkern_qr_type"],
                  "stencil": ["testkern_stencil_type", "testkern_stencil_xory1d_type", "testkern_stencil_multi_type"]}
